@@ -102,3 +102,98 @@ def rule_inventory(ctx):
 
 
 RULES = [("C10.1", rule_inventory)]
+
+
+# ---------------------------------------------------------------------------------------
+ALLOC = {"std::vec::from_elem": 1, "std::vec::Vec::with_capacity": 0, "zksync_consensus_network::noise::bytes::Buffer::new": 0,
+         "std::string::String::with_capacity": 0, "std::collections::VecDeque::with_capacity": 0, "std::vec::Vec::resize": 1, "std::vec::Vec::reserve": 1,
+         "bit_vec::BitVec::from_elem": 0, "zksync_consensus_roles::validator::messages::v2::consensus::Signers::new": 0}
+WIRE = ("u16::from_le_bytes", "u32::from_le_bytes", "u64::from_le_bytes", "u16::from_be_bytes", "u32::from_be_bytes", "u64::from_be_bytes")
+
+
+def _strip_cast(t):
+    while t[0] == "cast":
+        t = t[1]
+    return t
+
+
+def _wire_sized(t):
+    return any(x[0] == "call" and x[1] in WIRE for x in subterms(t))
+
+
+def rule_alloc_bounded(ctx):
+    from engine.guards import Atom, Walker
+    R = "C10.3"
+    ctx.rule(R, "allocation bounded before it happens: every allocation in the network closure whose size is decoded from the wire is dominated by a comparison that rejects sizes above a bound, or is min(.., bound); locally sized allocations are listed")
+    rs, _ = roots(ctx)
+    cl = getattr(ctx, "_c10_closure", None) or ctx.cg.closure(rs, skip)
+    wire = local = const = 0
+    for f in cl:
+        T = ctx.T(f)
+        for c in T.calls():
+            idx = ALLOC.get(c["q"])
+            if idx is None:
+                continue
+            a = T.args_of(c)
+            if idx >= len(a):
+                continue
+            S = a[idx]
+            base = _strip_cast(S)
+            if base[0] == "const" or (S[0] == "const"):
+                const += 1
+                continue
+            if not _wire_sized(S):
+                local += 1
+                continue
+            wire += 1
+            where = f.qname.split("::", 1)[-1][-60:]
+            if base[0] == "call" and base[1] == "std::cmp::min":
+                ctx.ob(R, "alloc in %s" % where, True, "size = min(.., bound): %s" % show(S)[:100], f.loc(c["t"].get("ln")))
+                continue
+
+            def m(x, y, base=base):
+                if _strip_cast(x) == base and _strip_cast(y) != base:
+                    return 1
+                if _strip_cast(y) == base and _strip_cast(x) != base:
+                    return -1
+                return 0
+            W = Walker(ctx, f, [Atom("cmp(size,bound)", "cmp", m, ["<", "=", ">"])])
+            names, tab = W.table({"alloc": [c["bb"]]})
+            ok = "alloc" not in tab.get((">",), {"alloc"}) and ("alloc" in tab.get(("<",), set()) or "alloc" in tab.get(("=",), set()))
+            ctx.ob(R, "alloc in %s" % where, ok, "the wire-decoded size %s is compared with a bound that rejects larger values before allocating" % show(base)[:60] if ok else
+                   "%s allocates %s bytes decoded from the wire without a dominating upper-bound check: a peer can make the node buffer more than its configured limit" % (f.qname, show(S)[:80]), f.loc(c["t"].get("ln")))
+    ctx.floor(R, "wire-sized allocation sites", wire, 2)
+    ctx.counts["C10.3:locally sized allocation sites"] = local
+    ctx.counts["C10.3:constant sized allocation sites"] = const
+
+
+def rule_limits_wired(ctx):
+    R = "C10.4"
+    ctx.rule(R, "limits are wired: every rpc::Handler::max_req_size returns a constant or configuration field; every recv_proto / mux_recv_proto call passes a bound that is not derived from peer data")
+    from engine.guards import Inliner, chain
+    n = 0
+    for p in ctx.cg.trait_impls.get("zksync_consensus_network::rpc::Handler::max_req_size", []):
+        g = ctx.F.by_path.get(p)
+        if g is None or g.in_testonly():
+            continue
+        n += 1
+        t = Inliner(ctx).ret_term(g)
+        ok = t is not None and not _wire_sized(t) and (t[0] in ("const", "cdef") or (t[0] == "field") or (t[0] == "call" and t[1].endswith(("saturating_add", "saturating_mul"))) or (t[0] == "field" and t[2] == "0"))
+        ctx.ob(R, "max_req_size of %s" % (g.item.impl_self or "")[-50:], ok, "returns %s" % show(t)[:60] if ok else "max_req_size returns %s" % (show(t)[:80] if t else None), g.loc())
+    ctx.floor(R, "max_req_size impls", n, 7)
+    m = 0
+    for f in ctx.F.fns:
+        if f.in_testonly() or f.crate != "zksync_consensus_network":
+            continue
+        T = ctx.T(f)
+        for c in T.calls():
+            if (c["rq"] or c["q"]) in ("zksync_consensus_network::frame::recv_proto", "zksync_consensus_network::frame::mux_recv_proto"):
+                a = T.args_of(c)
+                b = a[2]
+                m += 1
+                ok = not _wire_sized(b) and not any(x[0] == "await" for x in subterms(b))
+                ctx.ob(R, "bound passed in %s" % f.qname.split("::", 1)[-1][-50:], ok, "max size = %s" % show(b)[:70] if ok else "the size limit passed to %s is derived from peer data: %s" % (c["q"].split("::")[-1], show(b)[:80]), f.loc(c["t"].get("ln")))
+    ctx.floor(R, "recv_proto / mux_recv_proto call sites", m, 8)
+
+
+RULES += [("C10.3", rule_alloc_bounded), ("C10.4", rule_limits_wired)]
